@@ -82,10 +82,13 @@ def step (l : Line) : String :=
     let o := obsOf l
     let observed := o.globalsChanged ++ o.suppliedChanged
     let unexplained := observed.filter fun n => !cells.any fun p => covers p n
-    -- another instance / later behaviour can only change through a shared cell
+    -- a deterministic interleaving of two requests of this step on the one instance: what may race when it runs twice at once
+    let racy := if str l "sched" == "overlap" then racyFns (F.drop _root_.C20.auditedSites _root_.C20.auditedReads) [st, st] else []
+    -- another instance / later behaviour can only change through a shared cell (or, under an interleaving, through a race)
     let indirect := (!o.othersChanged.isEmpty || !o.behaviourChanged.isEmpty || !o.instanceBehaviourChanged.isEmpty) && cells.isEmpty &&
-      !(st.inst.ty == "rp.remoteKeySet")
+      racy.isEmpty && !(st.inst.ty == "rp.remoteKeySet")
     let ok := unexplained.isEmpty && !indirect
-    pre ++ (if cells.isEmpty then "" else "+maywrite") ++ " model=" ++ esc (join cells) ++ post ++ " agree=" ++ (if ok then "1" else "0")
+    pre ++ (if cells.isEmpty then "" else "+maywrite") ++ (if racy.isEmpty then "" else "+mayrace") ++
+      " model=" ++ esc (join (cells ++ racy.map fun f => "race:" ++ f)) ++ post ++ " agree=" ++ (if ok then "1" else "0")
 
 end Drv.C20
